@@ -229,7 +229,7 @@ def builtin_family(base_id, k=4):
     return progs
 
 
-def arm_family(seed, n, base_id, k=3):
+def arm_family(seed, n, base_id, k=3, p_ctx=0.0, p_bare=0.2):
     """Definitions aimed at the transition structure of one automaton state: several rules share
     an (optional) prefix and then diverge on *class atoms* that overlap in every way -- single
     characters, ranges, sets with holes (`X # 'b'`), `_`, `_ # X`, `'b' | _` -- followed by short
@@ -272,8 +272,9 @@ def arm_family(seed, n, base_id, k=3):
 
     def suffix():
         r = rnd.random()
-        if r < 0.2:
+        if r < p_bare:
             return None
+        r = 0.2 + 0.8 * rnd.random()
         if r < 0.5:
             return chr_(62)
         if r < 0.75:
@@ -297,7 +298,25 @@ def arm_family(seed, n, base_id, k=3):
             if rnd.random() < 0.12:
                 parts[-1] = plus(parts[-1]) if parts[-1]["k"] not in ("plus", "opt", "str") else parts[-1]
             re = cats(*parts)
-            rules.append(inf_rule(re) if rnd.random() < 0.8 else simple_rule(re))
+            ctx = None
+            if p_ctx and rnd.random() < p_ctx:
+                # a right context: a letter, a class of letters, a suffix character or `$`
+                ctx = rnd.choice([chr_(rnd.choice(L)), set_([rng()]), chr_(62), eoi(),
+                                  diff(any_(), chr_(rnd.choice(L)))])
+            rules.append(inf_rule(re, ctx=ctx) if rnd.random() < 0.8 else simple_rule(re, ctx=ctx))
+        if p_ctx and rnd.random() < 0.35:
+            # the "sign" template: a context-guarded class first, then different rules for its
+            # members (each member has its own fallback when the context fails)
+            x, y = rnd.sample(L, 2)
+            cls_ = rnd.choice([set_([(x, x), (y, y)]), set_([(min(x, y), max(x, y))]), any_(),
+                               diff(any_(), chr_(rnd.choice(L)))])
+            ctx = rnd.choice([chr_(rnd.choice(L)), set_([rng()]), chr_(62), eoi()])
+            pre = [prefix] if prefix is not None else []
+            rules = [inf_rule(cats(*(pre + [cls_])), ctx=ctx),
+                     rnd.choice([inf_rule, simple_rule])(cats(*(pre + [chr_(x)]))),
+                     rnd.choice([inf_rule, simple_rule])(cats(*(pre + [rnd.choice([chr_(y), set_([rng()])])])))]
+            if rnd.random() < 0.5:
+                rules.insert(rnd.randrange(1, 4), inf_rule(cats(*(pre + [atom()])), ctx=rnd.choice([None, chr_(rnd.choice(L))])))
         if rnd.random() < 0.4:
             rules.append(simple_rule(any_()))
         sigma = sorted(set(L + [62, 33, 120] + ([60] if prefix is not None and prefix["c"] == 60 else [])))
